@@ -126,3 +126,12 @@ Theorem C04_time_parts_is_gmtime_plus_the_regenerated_table : forall t,
   rc = 0 /\ gen_time_parts t = [y; m; d; hh; mm; ss].
 Proof. exact time_parts_regen. Qed.
 Print Assumptions C04_time_parts_is_gmtime_plus_the_regenerated_table.
+
+(* ---- T17: the sources this property rests on keep no state outside the objects the model has (no static locals
+   or mutable globals in C, no class-level / module-level containers, `global` rebinding or cache decorators in
+   Python): the list of such sites, regenerated from the sources on every run, is empty *)
+From Coq Require Import String List.
+From DRF Require Import Gen.StateSites Proofs.StateSitesProofs.
+Theorem C04_no_state_outside_the_modelled_objects : state_sites_c_library = @nil string /\ state_sites_extension = @nil string.
+Proof. repeat split; first [exact no_state_outside_objects_c_library | exact no_state_outside_objects_extension]. Qed.
+Print Assumptions C04_no_state_outside_the_modelled_objects.
